@@ -144,7 +144,20 @@ impl Property for C05 {
         !case.requests.is_empty() && case.requests.iter().all(|w| wreq_in_domain(w) || is_poison(w))
     }
     fn strategy(&self, tier: Tier) -> BoxedStrategy<Case> {
-        (vec(echo_wreq(), 1..=6), prop::bool::weighted(tier.pick(0.25, 0.3))).prop_map(|(requests, real_session)| Case { requests, real_session }).boxed()
+        (vec(echo_wreq(), 1..=6), prop::bool::weighted(tier.pick(0.25, 0.3)), prop::option::weighted(0.004, (any::<prop::sample::Index>(), 2_000_000u32..6_000_000)))
+            .prop_map(|(mut requests, real_session, big)| {
+                // now and then an upload of megabytes (the body bytes are a fixed pattern, the case stores their number)
+                if let Some((at, n)) = big {
+                    let i = at.index(requests.len());
+                    let w = &mut requests[i];
+                    if !is_poison(w) {
+                        w.body.get_or_insert_with(Vec::new);
+                        w.pad = n;
+                    }
+                }
+                Case { requests, real_session }
+            })
+            .boxed()
     }
 
     fn check(&self, case: &Case, obs: &mut Obs) {
@@ -154,6 +167,9 @@ impl Property for C05 {
         }
         let bytes: Vec<Vec<u8>> = case.requests.iter().map(|w| w.to_bytes()).collect();
         let heads: Vec<bool> = case.requests.iter().map(|w| w.method == "HEAD").collect();
+        if case.requests.iter().any(|w| w.pad > 0) {
+            obs.label("body-of-megabytes");
+        }
         // expectation: each request alone on a fresh connection
         let mut solo: Vec<Vec<u8>> = Vec::new();
         for b in &bytes {
